@@ -147,6 +147,8 @@ type cmdSpec struct {
 type versionSpec struct {
 	Name B `json:"name"`
 	Text B `json:"text"`
+	// Last: Version is called after the root's other declarations instead of before them
+	Last bool `json:"last"`
 }
 
 type matcherSpec struct {
@@ -827,6 +829,8 @@ type runCtx struct {
 	values map[string][]B
 	sbu    map[string]bool
 	shared map[string][]string // default slices shared between declarations of this case
+	// afterRootDecls: called once, right after the root's own declarations (Version declared last)
+	afterRootDecls func()
 }
 
 func firstName(name string) string {
@@ -872,6 +876,11 @@ func (r *runCtx) configure(cmd *cli.Cmd, c *cmdSpec, path string) {
 	for i := range c.Decls {
 		rec := declare(cmd, &c.Decls[i], path, r.shared)
 		r.vars = append(r.vars, rec)
+	}
+	if r.afterRootDecls != nil {
+		f := r.afterRootDecls
+		r.afterRootDecls = nil
+		f()
 	}
 	cmd.Spec = string(c.Spec)
 	cmd.LongDesc = string(c.LongDesc)
@@ -937,7 +946,11 @@ func runCase(req *request, stderr *bytes.Buffer) *runOut {
 			app.ErrorHandling = flag.ErrorHandling(*root.Policy)
 		}
 		if req.Version != nil {
-			app.Version(string(req.Version.Name), string(req.Version.Text))
+			if req.Version.Last {
+				r.afterRootDecls = func() { app.Version(string(req.Version.Name), string(req.Version.Text)) }
+			} else {
+				app.Version(string(req.Version.Name), string(req.Version.Text))
+			}
 		}
 		r.configure(app.Cmd, root, rootName)
 
